@@ -74,6 +74,7 @@ fn ready_fd_and_ping_are_dispatched_even_when_a_timer_is_due() {
     let mut n = (0, 0, 0);
     el.dispatch(Duration::ZERO, &mut n).unwrap();
     assert_eq!((n.0, n.1), (1, 1), "pending readiness not dispatched in a dispatch that also fired a timer");
+    assert_eq!(n.2, 1, "a due timer did not fire in the dispatch that polled after its deadline (I/O was ready too)");
     for _ in 0..5 { el.dispatch(Duration::ZERO, &mut n).unwrap(); }
     assert_eq!(n.1, 6, "a level-triggered fd is reported on every dispatch while ready (busy timer must not starve it)");
 }
@@ -122,4 +123,42 @@ fn immediate_slot_reuse_does_not_misroute() {
     p_new.ping();
     el.dispatch(Duration::ZERO, &mut v).unwrap();
     assert_eq!(v, vec!["new", "new"]);
+}
+
+#[test]
+fn timer_disabled_earlier_in_the_same_batch_does_not_fire() {
+    // fd events precede expired timers in a batch: the ping callback disables the (already collected) timer
+    let mut el: EventLoop<(u32, u32)> = EventLoop::try_new().unwrap();
+    let h = el.handle();
+    let t = h.insert_source(Timer::immediate(), |_, _, n: &mut (u32, u32)| { n.1 += 1; TimeoutAction::ToDuration(Duration::from_millis(1)) }).unwrap();
+    let (p, s) = make_ping().unwrap();
+    let h2 = h.clone();
+    h.insert_source(s, move |_, _, n: &mut (u32, u32)| { n.0 += 1; let _ = h2.disable(&t); }).unwrap();
+    std::thread::sleep(Duration::from_millis(3));
+    p.ping();
+    let mut n = (0, 0);
+    el.dispatch(Duration::ZERO, &mut n).unwrap();
+    assert_eq!(n.0, 1);
+    for _ in 0..3 { el.dispatch(Duration::from_millis(5), &mut n).unwrap(); }
+    assert_eq!(n.1, 0, "a timer disabled earlier in the batch (or afterwards) had its callback invoked");
+    h.enable(&t).unwrap();
+    el.dispatch(Duration::from_millis(20), &mut n).unwrap();
+    assert!(n.1 >= 1, "the retained deadline fires after enable()");
+}
+
+#[test]
+fn dead_token_stays_dead_across_65535_reuses_of_its_slot() {
+    let el: EventLoop<()> = EventLoop::try_new().unwrap();
+    let h = el.handle();
+    let first = h.insert_source(Timer::from_duration(Duration::from_secs(3600)), |_, _, _| TimeoutAction::Drop).unwrap();
+    h.remove(first);
+    let mut seen = std::collections::HashSet::new();
+    seen.insert(format!("{:?}", first));
+    for i in 0..65535u32 {
+        let t = h.insert_source(Timer::from_duration(Duration::from_secs(3600)), |_, _, _| TimeoutAction::Drop).unwrap();
+        assert!(t != first, "the token of a removed source came back to life after {} reuses of its slot", i + 1);
+        assert!(h.enable(&first).is_err() && h.disable(&first).is_err() && h.update(&first).is_err(),
+            "a dead token was accepted after {} reuses of its slot", i + 1);
+        if i < 65534 { h.remove(t); }
+    }
 }
